@@ -425,13 +425,17 @@ def build_registry(log: Log, coroutines: bool) -> 'pjrpc.server.MethodRegistry':
 
 class World:
     def __init__(self, is_async: bool, max_batch_size: Optional[int] = None, all_coroutines: Optional[bool] = None,
-                 **dispatcher_kwargs: Any):
+                 make_dispatcher: Optional[Callable[..., Any]] = None, **dispatcher_kwargs: Any):
         self.is_async = is_async
         self.log = Log()
         self.max_batch_size = max_batch_size
         coro = is_async if all_coroutines is None else all_coroutines
         cls = pjrpc.server.AsyncDispatcher if is_async else pjrpc.server.Dispatcher
-        self.dispatcher = cls(max_batch_size=max_batch_size, **dispatcher_kwargs)
+        if make_dispatcher is not None:
+            # the dispatcher is obtained through another entry point of the library (an integration's add_endpoint, ...)
+            self.dispatcher = make_dispatcher(**dispatcher_kwargs)
+        else:
+            self.dispatcher = cls(max_batch_size=max_batch_size, **dispatcher_kwargs)
         self.dispatcher.add_methods(build_registry(self.log, coro))
 
     def dispatch(self, text: str, context: Any = None):
